@@ -20,6 +20,8 @@ type mutant struct {
 	Rule   string // rule expected to fire ("" for a benign refactoring: nothing new may fire)
 	Key    string // substring expected in the key of the new violation
 	Benign bool
+	More   [][2]string // further (old, new) replacements in the same file
+	Also   [][3]string // further (file, old, new) replacements in other files
 }
 
 var mutants []mutant
@@ -56,7 +58,32 @@ func runMutant(c *Config, m mutant, base map[string]string) selfResult {
 	if n := strings.Count(src, m.Old); n != 1 {
 		return selfResult{m, false, fmt.Sprintf("mutant does not apply: pattern occurs %d times in %s (the repository changed; update the mutant)", n, m.File)}
 	}
-	mc := &Config{Repo: c.Repo, Verif: c.Verif, Tier: "quick", Quiet: true, Overlay: map[string][]byte{path: []byte(strings.Replace(src, m.Old, m.New, 1))}}
+	src = strings.Replace(src, m.Old, m.New, 1)
+	for _, e := range m.More {
+		if n := strings.Count(src, e[0]); n != 1 {
+			return selfResult{m, false, fmt.Sprintf("mutant does not apply: extra pattern occurs %d times in %s", n, m.File)}
+		}
+		src = strings.Replace(src, e[0], e[1], 1)
+	}
+	ov := map[string][]byte{path: []byte(src)}
+	for _, e := range m.Also {
+		p2 := filepath.Join(c.Repo, e[0])
+		var cur string
+		if b2, ok := ov[p2]; ok {
+			cur = string(b2)
+		} else {
+			b2, err := os.ReadFile(p2)
+			if err != nil {
+				return selfResult{m, false, err.Error()}
+			}
+			cur = string(b2)
+		}
+		if n := strings.Count(cur, e[1]); n != 1 {
+			return selfResult{m, false, fmt.Sprintf("mutant does not apply: pattern occurs %d times in %s", n, e[0])}
+		}
+		ov[p2] = []byte(strings.Replace(cur, e[1], e[2], 1))
+	}
+	mc := &Config{Repo: c.Repo, Verif: c.Verif, Tier: "quick", Quiet: true, Overlay: ov}
 	r := runProp(mc, m.Prop)
 	got := failingKeys(r)
 	var fresh []string
@@ -80,12 +107,22 @@ func runMutant(c *Config, m mutant, base map[string]string) selfResult {
 	if len(fresh) > 0 {
 		return selfResult{m, false, "expected " + m.Rule + " [" + m.Key + "], got: " + strings.Join(fresh, "; ") + " :: " + got[fresh[0]]}
 	}
+	if os.Getenv("YVERIF_DEBUG") != "" {
+		for _, o := range r.Obls {
+			if o.Rule == m.Rule {
+				fmt.Printf("    [%s] %v %s %s\n", o.Key, o.OK, o.Pos, o.Detail)
+			}
+		}
+	}
 	return selfResult{m, false, "survived: no new violation"}
 }
 
 func selftest(c *Config, only string) int {
 	byProp := map[string][]mutant{}
 	for _, m := range mutants {
+		if on := os.Getenv("YVERIF_ONLY"); on != "" && m.Name != on {
+			continue
+		}
 		if only == "" || m.Prop == only {
 			byProp[m.Prop] = append(byProp[m.Prop], m)
 		}
